@@ -161,7 +161,15 @@ class Loop(abc.ABC, Generic[_T]):
             '%s is not of type bool'
 
         if clear_current and self._current_world_handle is not None:
-            self._current_world_handle.clear()
+            # A handle that is left and entered at once, and that already
+            # holds another world than the one being left, has been
+            # reloaded for this switch (see switch()): that world is the
+            # one the switch events announced, do not discard it
+            reloaded = (self._current_world_handle is world_handle
+                        and world_handle.cached
+                        and world_handle() is not self._current_world)
+            if not reloaded:
+                self._current_world_handle.clear()
 
         if clear_next:
             world_handle.clear()
